@@ -339,9 +339,9 @@ def check_simulation(ctx, scn, bpm, prf, parts, tam):
     rel = scn['release']
     kstop, reasons = replay_python(q, dr, float(bpm.D), float(rel['sd_max']))
     if n < 2:
-        ctx.violation('stop-without-documented-reason', 'simulation returned without taking a step', dict(base))
+        ctx.violation('stopped-for-no-listed-reason', 'simulation returned without taking a step', dict(base))
     elif kstop is None:
-        ctx.violation('stop-without-documented-reason',
+        ctx.violation('stopped-for-no-listed-reason',
                       'simulation ended although none of surface / neutral-after-peak / distance / stall / cap holds in the last row (integrator failure or an undocumented stop test)',
                       dict(base, z_end=float(q[-1, 9]), s_over_D=float(q[-1, 10] / bpm.D), sd_max=float(rel['sd_max'])))
     elif kstop != n - 1:
@@ -470,6 +470,17 @@ def stop_logic_cases(ctx):
     cases.append(('surface-negative', seq([_row(-1, 1, 0, 3), _row(-1, 1, 1, -0.5), _row(-1, 1, 2, -1.)]), 99, 1., 1e9))
     # stall: equal arc length in consecutive rows
     cases.append(('stall', seq([_row(-1, 1, 0, 50), _row(-1, 1, 1, 49), _row(-1, 1, 1, 48), _row(-1, 1, 2, 47)]), 99, 1., 1e9))
+    # NOT a stall: one stored step advances the arc length by a tiny but non-zero amount (the solver cut its step after a
+    # derivative discontinuity), then normal steps; the loop must go on and end for the reason the sequence triggers later
+    for eps in (1e-12, 1e-9, 1e-7, 3e-7):
+        s1 = 10. * (1. + eps)
+        assert s1 != 10.
+        cases.append(('tiny-advance-%g-then-distance' % eps, seq([_row(-1, 1, 0, 50), _row(-1, 1, 10., 49), _row(-1, 1, s1, 48.9), _row(-1, 1, 11, 48), _row(-1, 1, 12, 47),
+                                                                  _row(-1, 1, 40, 46), _row(-1, 1, 41, 45)]), 99, 2., 15.))
+        cases.append(('tiny-advance-%g-then-surface' % eps, seq([_row(-1, 1, 0, 5), _row(-1, 1, 10., 4), _row(-1, 1, s1, 3.9), _row(-1, 1, s1 * (1. + eps), 3.8), _row(-1, 1, 11, 2),
+                                                                 _row(-1, 1, 12, 0.), _row(-1, 1, 13, -1)]), 99, 2., 1e9))
+        cases.append(('tiny-advance-%g-then-exact-stall' % eps, seq([_row(-1, 1, 0, 50), _row(-1, 1, 10., 49), _row(-1, 1, s1, 48.9), _row(-1, 1, 11, 48), _row(-1, 1, 11, 47),
+                                                                     _row(-1, 1, 12, 46)]), 99, 2., 1e9))
     # neutral buoyancy: a density reversal BEFORE the peak does not count, the first one at/after the peak stops
     cases.append(('neutral-after-peak', seq([_row(-1, 1, 0, 50), _row(-1, -1, 1, 49), _row(1, -1, 2, 48), _row(1, -1, 3, 49), _row(1, 1, 4, 50), _row(1, 1, 5, 51)]), 99, 1., 1e9))
     cases.append(('neutral-same-step', seq([_row(-1, 1, 0, 50), _row(-1, 1, 1, 49), _row(1, -1, 2, 48), _row(1, -1, 3, 49)]), 99, 1., 1e9))
@@ -491,7 +502,7 @@ def stop_logic_cases(ctx):
                 Jz = 0.
             if r.random() < 0.15:
                 dr = -dr
-            s += r.choice([1., 1., 0.5, 0.])
+            s += r.choice([1., 1., 0.5, 0., max(s, 1.) * r.choice([1e-12, 1e-9, 1e-7, 3e-7])])
             if r.random() < 0.2:
                 s = sd * D if r.random() < 0.5 else s
             z -= r.choice([1., 2., 0.5])
